@@ -390,19 +390,49 @@ theorem Limit.consume_spec (s : Src) (N : Nat) (bufs : List Nat) (dflt : Nat)
 
 /-! ### MultiReaderCloser -/
 
-/-- What a consumer of the remaining readers will receive: the concatenation of the sources up to
-and including the first one that ends in an error; EOF iff none does. -/
+/-- a terminal after which `MultiReaderCloser.Read` moves on to the next source -/
+def Err.endsSource (e : Err) : Prop := e = .eof ∨ e = .bodyClosed
+
+instance (e : Err) : Decidable e.endsSource := by unfold Err.endsSource; exact inferInstance
+
+/-- Read path: what a consumer of the remaining readers will receive: the concatenation of the
+sources up to and including the first one that ends in an error other than EOF /
+`http.ErrBodyReadAfterClose`; EOF iff none does. -/
 def multiSpec : List Src → Bytes × Err
   | [] => ([], .eof)
-  | s :: ss => if s.term = .eof then (s.rest ++ (multiSpec ss).1, (multiSpec ss).2) else (s.rest, s.term)
+  | s :: ss => if s.term.endsSource then (s.rest ++ (multiSpec ss).1, (multiSpec ss).2) else (s.rest, s.term)
+
+/-- WriteTo path: `io.CopyBuffer` stops at the first source that does not end in EOF
+(`http.ErrBodyReadAfterClose` is not special-cased there). -/
+def multiSpecWT : List Src → Bytes × Err
+  | [] => ([], .eof)
+  | s :: ss => if s.term = .eof then (s.rest ++ (multiSpecWT ss).1, (multiSpecWT ss).2) else (s.rest, s.term)
+
+theorem multiSpec_eq_WT : ∀ (srcs : List Src), (∀ s ∈ srcs, s.term ≠ .bodyClosed) →
+    multiSpec srcs = multiSpecWT srcs := by
+  intro srcs
+  induction srcs with
+  | nil => intro _; rfl
+  | cons s ss ih =>
+    intro h
+    have h1 : s.term ≠ .bodyClosed := h s (by simp)
+    have h2 := ih (fun x hx => h x (by simp [hx]))
+    simp only [multiSpec, multiSpecWT, Err.endsSource, h1, or_false, h2]
 
 def Src.closedOnce (s : Src) : Prop := s.closes = if s.closable then 1 else 0
 
+/-- a source the multi reader is done with: closed exactly once if it is a closer — or, if it
+ended in `http.ErrBodyReadAfterClose`, possibly not closed (again) at all; never twice. -/
+def Src.doneOk (s : Src) : Prop := s.closedOnce ∨ (s.term = .bodyClosed ∧ s.closes = 0)
+
 def listSize (rs : List Src) : Nat := (rs.map (fun s => s.size + 1)).sum
 
-def Multi.Inv (G : List Bool) (M : Multi) : Prop :=
-  (∀ s ∈ M.readers, s.closes = 0) ∧ (∀ s ∈ M.done, s.closedOnce) ∧
-    (M.done ++ M.readers).map (·.closable) = G
+/-- the identity of a source that no operation changes -/
+def Src.ident (s : Src) : Bool × Err := (s.closable, s.term)
+
+def Multi.Inv (G : List (Bool × Err)) (M : Multi) : Prop :=
+  (∀ s ∈ M.readers, s.closes = 0) ∧ (∀ s ∈ M.done, s.doneOk) ∧
+    (M.done ++ M.readers).map Src.ident = G
 
 theorem Multi.readLoop_cons (m : Nat) (r : Src) (rs dn : List Src) :
     Multi.readLoop m (r :: rs) dn =
@@ -411,6 +441,11 @@ theorem Multi.readLoop_cons (m : Nat) (r : Src) (rs dn : List Src) :
           ({ readers := rs, done := dn ++ [(r.read m).1.closeIfCloser] }, (r.read m).2.1,
             if rs = [] then some .eof else none)
         else Multi.readLoop m rs (dn ++ [(r.read m).1.closeIfCloser]))
+      else if (r.read m).2.2 = some .bodyClosed then
+        (if (r.read m).2.1 ≠ [] then
+          ({ readers := rs, done := dn ++ [(r.read m).1] }, (r.read m).2.1,
+            if rs = [] then some .eof else none)
+        else Multi.readLoop m rs (dn ++ [(r.read m).1]))
       else ({ readers := (r.read m).1 :: rs, done := dn }, (r.read m).2.1, (r.read m).2.2) := by
   rw [Multi.readLoop]
   rcases r.read m with ⟨r', d, e⟩
@@ -425,28 +460,41 @@ theorem Src.closeIfCloser_closedOnce {s : Src} (h : s.closes = 0) : s.closeIfClo
 @[simp] theorem Src.closeIfCloser_closable (s : Src) : s.closeIfCloser.closable = s.closable := by
   unfold Src.closeIfCloser Src.close; split <;> rfl
 
+@[simp] theorem Src.closeIfCloser_term (s : Src) : s.closeIfCloser.term = s.term := by
+  unfold Src.closeIfCloser Src.close; split <;> rfl
+
+@[simp] theorem Src.closeIfCloser_ident (s : Src) : s.closeIfCloser.ident = s.ident := by
+  simp [Src.ident]
+
+theorem Src.sameMeta.ident {s s' : Src} (h : s.sameMeta s') : s'.ident = s.ident := by
+  simp [Src.ident, h.2.1, h.2.2.1]
+
 theorem multiSpec_cons_none {r r' : Src} {d : Bytes} (rs : List Src)
     (hrest : r.rest = d ++ r'.rest) (hterm : r'.term = r.term) :
     multiSpec (r :: rs) = (d ++ (multiSpec (r' :: rs)).1, (multiSpec (r' :: rs)).2) := by
   simp only [multiSpec, hterm, hrest]
   split <;> simp
 
+/-- what one `Read` establishes about the stream, by outcome -/
+def Multi.stepPost (m : Nat) (rs : List Src) (M' : Multi) (d : Bytes) : Option Err → Prop
+  | none => multiSpec rs = (d ++ (multiSpec M'.readers).1, (multiSpec M'.readers).2) ∧
+      listSize M'.readers ≤ listSize rs ∧ (0 < m → listSize M'.readers < listSize rs)
+  | some e => multiSpec rs = (d, e)
+
+/-- one `Read` of the multi reader (the inner loop over exhausted sources), any outcome -/
 theorem Multi.readLoop_step (m : Nat) : ∀ (rs dn : List Src) (M' : Multi) (d : Bytes) (e : Option Err),
-    (∀ s ∈ rs, s.closes = 0) → (∀ s ∈ dn, s.closedOnce) →
+    (∀ s ∈ rs, s.closes = 0) → (∀ s ∈ dn, s.doneOk) →
     Multi.readLoop m rs dn = (M', d, e) →
-    (∀ s ∈ M'.readers, s.closes = 0) ∧ (∀ s ∈ M'.done, s.closedOnce) ∧
-    (M'.done ++ M'.readers).map (·.closable) = (dn ++ rs).map (·.closable) ∧
-    (match e with
-     | none => multiSpec rs = (d ++ (multiSpec M'.readers).1, (multiSpec M'.readers).2) ∧
-        listSize M'.readers ≤ listSize rs ∧ (0 < m → listSize M'.readers < listSize rs)
-     | some e => multiSpec rs = (d, e)) := by
+    (∀ s ∈ M'.readers, s.closes = 0) ∧ (∀ s ∈ M'.done, s.doneOk) ∧
+    (M'.done ++ M'.readers).map Src.ident = (dn ++ rs).map Src.ident ∧
+    Multi.stepPost m rs M' d e := by
   intro rs
   induction rs with
   | nil =>
     intro dn M' d e _ hdn h
     simp only [Multi.readLoop, Prod.mk.injEq] at h
     obtain ⟨rfl, rfl, rfl⟩ := h
-    exact ⟨by simp, hdn, by simp, by simp [multiSpec]⟩
+    exact ⟨by simp, hdn, by simp, by simp [Multi.stepPost, multiSpec]⟩
   | cons r rs ih =>
     intro dn M' d e hrs hdn h
     have hr0 : r.closes = 0 := hrs r (by simp)
@@ -455,80 +503,98 @@ theorem Multi.readLoop_step (m : Nat) : ∀ (rs dn : List Src) (M' : Multi) (d :
     rcases hr : r.read m with ⟨r', d0, e0⟩
     rw [hr] at h
     simp only at h
-    by_cases he : e0 = some .eof
-    · subst he
-      obtain ⟨hterm, hd0, _, hmeta, _⟩ := Src.read_some hr0 hr
-      obtain ⟨_, _, hclosable, hcls⟩ := hmeta
-      have hdn' : ∀ s ∈ dn ++ [r'.closeIfCloser], s.closedOnce := by
+    -- the two "source is finished" branches share everything but what is appended to `done`
+    have finished : ∀ (r'' : Src), r''.doneOk → r''.ident = r.ident → r.term.endsSource → d0 = r.rest →
+        (if d0 ≠ [] then
+          (({ readers := rs, done := dn ++ [r''] } : Multi), d0, if rs = [] then some Err.eof else none)
+         else Multi.readLoop m rs (dn ++ [r''])) = (M', d, e) →
+        (∀ s ∈ M'.readers, s.closes = 0) ∧ (∀ s ∈ M'.done, s.doneOk) ∧
+        (M'.done ++ M'.readers).map Src.ident = (dn ++ r :: rs).map Src.ident ∧
+        Multi.stepPost m (r :: rs) M' d e := by
+      intro r'' hok hid hends hd0 h
+      have hdn' : ∀ s ∈ dn ++ [r''], s.doneOk := by
         intro s hs
         rcases List.mem_append.mp hs with hs | hs
         · exact hdn s hs
         · simp only [List.mem_singleton] at hs
-          subst hs
-          exact Src.closeIfCloser_closedOnce (by rw [hcls, hr0])
+          subst hs; exact hok
       have hspec : multiSpec (r :: rs) = (d0 ++ (multiSpec rs).1, (multiSpec rs).2) := by
-        simp [multiSpec, ← hterm, hd0]
-      simp only [↓reduceIte] at h
+        simp [multiSpec, hends, hd0]
       by_cases hne : d0 ≠ []
       · simp only [hne, ne_eq, not_false_eq_true, ↓reduceIte, Prod.mk.injEq] at h
         obtain ⟨rfl, rfl, rfl⟩ := h
-        refine ⟨hrs', hdn', by simp [hclosable], ?_⟩
+        refine ⟨hrs', hdn', by simp [hid], ?_⟩
         by_cases hnil : rs = []
         · subst hnil
-          simp only [↓reduceIte]
+          simp only [↓reduceIte, Multi.stepPost]
           rw [hspec]; simp [multiSpec]
-        · simp only [hnil, ↓reduceIte]
+        · simp only [hnil, ↓reduceIte, Multi.stepPost]
           refine ⟨hspec, ?_, fun _ => ?_⟩ <;> simp [listSize] <;> omega
       · simp only [hne, ↓reduceIte] at h
         have hd0nil : d0 = [] := by simpa using hne
         obtain ⟨i1, i2, i3, i4⟩ := ih _ M' d e hrs' hdn' h
-        refine ⟨i1, i2, by rw [i3]; simp [hclosable], ?_⟩
+        refine ⟨i1, i2, by rw [i3]; simp [hid], ?_⟩
         cases e with
         | none =>
-          simp only at i4 ⊢
+          simp only [Multi.stepPost] at i4 ⊢
           refine ⟨by rw [hspec, hd0nil, i4.1]; simp, ?_, fun hm => ?_⟩
           · have := i4.2.1; simp [listSize] at this ⊢; omega
           · have := i4.2.2 hm; simp [listSize] at this ⊢; omega
         | some e =>
-          simp only at i4 ⊢
+          simp only [Multi.stepPost] at i4 ⊢
           rw [hspec, hd0nil, i4]; simp
-    · simp only [he, ↓reduceIte, Prod.mk.injEq] at h
+    by_cases he : e0 = some .eof
+    · subst he
+      obtain ⟨hterm, hd0, _, hmeta, _⟩ := Src.read_some hr0 hr
+      simp only [↓reduceIte] at h
+      exact finished r'.closeIfCloser
+        (Or.inl (Src.closeIfCloser_closedOnce (by rw [hmeta.2.2.2, hr0])))
+        (by rw [Src.closeIfCloser_ident, hmeta.ident]) (Or.inl hterm.symm) hd0 h
+    by_cases hb : e0 = some .bodyClosed
+    · subst hb
+      obtain ⟨hterm, hd0, _, hmeta, _⟩ := Src.read_some hr0 hr
+      simp only [↓reduceIte] at h
+      exact finished r' (Or.inr ⟨by rw [hmeta.2.1, ← hterm], by rw [hmeta.2.2.2, hr0]⟩)
+        hmeta.ident (Or.inr hterm.symm) hd0 h
+    · simp only [he, hb, ↓reduceIte, Prod.mk.injEq] at h
       obtain ⟨rfl, rfl, rfl⟩ := h
       cases e0 with
       | none =>
         obtain ⟨hrest, hmeta, _, hsz, hszlt⟩ := Src.read_none hr0 hr
-        obtain ⟨_, hterm, hclosable, hcls⟩ := hmeta
-        refine ⟨?_, hdn, by simp [hclosable], ?_⟩
+        refine ⟨?_, hdn, by simp [hmeta.ident], ?_⟩
         · intro s hs
           simp only [List.mem_cons] at hs
           rcases hs with rfl | hs
-          · rw [hcls, hr0]
+          · rw [hmeta.2.2.2, hr0]
           · exact hrs' s hs
-        · simp only
-          refine ⟨multiSpec_cons_none rs hrest hterm, ?_, fun hm => ?_⟩
+        · simp only [Multi.stepPost]
+          refine ⟨multiSpec_cons_none rs hrest hmeta.2.1, ?_, fun hm => ?_⟩
           · simp [listSize]; omega
           · have := hszlt hm; simp [listSize]; omega
       | some e1 =>
         obtain ⟨hterm, hd0, _, hmeta, _⟩ := Src.read_some hr0 hr
-        obtain ⟨_, _, hclosable, hcls⟩ := hmeta
-        refine ⟨?_, hdn, by simp [hclosable], ?_⟩
+        refine ⟨?_, hdn, by simp [hmeta.ident], ?_⟩
         · intro s hs
           simp only [List.mem_cons] at hs
           rcases hs with rfl | hs
-          · rw [hcls, hr0]
+          · rw [hmeta.2.2.2, hr0]
           · exact hrs' s hs
-        · simp only
-          have : r.term ≠ .eof := by rw [← hterm]; intro h; exact he (by rw [h])
+        · simp only [Multi.stepPost]
+          have : ¬ r.term.endsSource := by
+            rw [← hterm]; intro h
+            rcases h with h | h
+            · exact he (by rw [h])
+            · exact hb (by rw [h])
           simp [multiSpec, this, hd0, hterm]
 
 /-- The consumer loop over a multi reader yields `multiSpec`, and keeps the close-count invariant. -/
 theorem Multi.consume_spec (srcs : List Src) (bufs : List Nat) (dflt : Nat)
     (hc : ∀ s ∈ srcs, s.closes = 0) (hd : 0 < dflt) :
     ((Multi.new srcs).consume bufs dflt).2 = multiSpec srcs ∧
-      Multi.Inv (srcs.map (·.closable)) ((Multi.new srcs).consume bufs dflt).1 := by
+      Multi.Inv (srcs.map Src.ident) ((Multi.new srcs).consume bufs dflt).1 := by
   unfold Multi.consume
-  have := drain_spec Multi.read (fun M => multiSpec M.readers) (Multi.Inv (srcs.map (·.closable)))
-    (fun M _ => Multi.Inv (srcs.map (·.closable)) M) (fun M => listSize M.readers)
+  have := drain_spec Multi.read (fun M => multiSpec M.readers) (Multi.Inv (srcs.map Src.ident))
+    (fun M _ => Multi.Inv (srcs.map Src.ident) M) (fun M => listSize M.readers)
     (by
       intro M m M' d hI h
       obtain ⟨h1, h2, h3, h4⟩ := Multi.readLoop_step m M.readers M.done M' d none hI.1 hI.2.1 h
@@ -542,22 +608,32 @@ theorem Multi.consume_spec (srcs : List Src) (bufs : List Nat) (dflt : Nat)
     (by simp [Multi.fuel, Multi.size, Multi.new, listSize])
   exact this
 
-/-- After `Close`, the invariant says every source that is a closer was closed exactly once and
-the others never. -/
-theorem Multi.close_counts {G : List Bool} {M : Multi} (h : Multi.Inv G M) :
-    M.close.closeCounts = G.map (fun b => if b then 1 else 0) ∧ M.close.readers = [] := by
+/-- After `Close`: nothing is left; every source is closed exactly once if it is a closer (a
+source that ended in `http.ErrBodyReadAfterClose` possibly not at all), never twice; and when no
+source ends in that error the close counts are exactly one per closer. -/
+theorem Multi.close_counts {G : List (Bool × Err)} {M : Multi} (h : Multi.Inv G M) :
+    M.close.readers = [] ∧ M.close.done.map Src.ident = G ∧ (∀ s ∈ M.close.done, s.doneOk) ∧
+    ((∀ g ∈ G, g.2 ≠ .bodyClosed) → M.close.closeCounts = G.map (fun g => if g.1 then 1 else 0)) := by
   obtain ⟨h1, h2, h3⟩ := h
-  refine ⟨?_, rfl⟩
-  rw [← h3]
-  simp only [Multi.close, Multi.closeCounts, List.append_nil, List.map_append, List.map_map]
-  congr 1
-  · apply List.map_congr_left
+  have hok : ∀ s ∈ M.close.done, s.doneOk := by
     intro s hs
-    exact h2 s hs
-  · apply List.map_congr_left
-    intro s hs
-    have := Src.closeIfCloser_closedOnce (h1 s hs)
-    simpa [Src.closedOnce] using this
+    simp only [Multi.close, List.mem_append, List.mem_map] at hs
+    rcases hs with hs | ⟨x, hx, rfl⟩
+    · exact h2 s hs
+    · exact Or.inl (Src.closeIfCloser_closedOnce (h1 x hx))
+  have hid : M.close.done.map Src.ident = G := by
+    rw [← h3]; simp [Multi.close, List.map_map, Function.comp_def]
+  refine ⟨rfl, hid, hok, fun hnb => ?_⟩
+  have hcc : M.close.closeCounts = M.close.done.map (·.closes) := by simp [Multi.closeCounts, Multi.close]
+  rw [hcc, ← hid, List.map_map]
+  apply List.map_congr_left
+  intro s hs
+  have hne : s.term ≠ .bodyClosed := by
+    have : s.ident ∈ G := by rw [← hid]; exact List.mem_map_of_mem hs
+    exact hnb _ this
+  rcases hok s hs with hco | ⟨hb, _⟩
+  · exact hco
+  · exact absurd hb hne
 
 /-! #### WriteTo -/
 
@@ -593,14 +669,30 @@ theorem copyLoop_meta (m : Nat) : ∀ (fuel : Nat) (s : Src) (w : Wr), s.closes 
       | none => exact hrec w
       | some e => cases e <;> exact hmeta
 
-def errOfTerm (e : Err) : Option Err := if e = .eof then none else some e
+theorem Src.writeTo_meta (s : Src) (w : Wr) : s.sameMeta (s.writeTo w).1 := by
+  unfold Src.writeTo
+  split
+  · simp [Src.sameMeta]
+  · split
+    · simp [Src.sameMeta]
+    · rcases w.write s.rest with ⟨w', nw, ew⟩
+      cases ew <;> simp [Src.sameMeta]
+
+/-- whichever path `io.CopyBuffer` takes, the source's identity and close count are untouched -/
+theorem copyBuffer_meta (s : Src) (w : Wr) (hc : s.closes = 0) : s.sameMeta (copyBuffer s w).1 := by
+  unfold copyBuffer
+  split
+  · exact Src.writeTo_meta s w
+  · split
+    · exact copyLoop_meta _ _ s w hc
+    · exact copyLoop_meta _ _ s w hc
 
 theorem Wr.write_good {w : Wr} (h : w.cap = none) (d : Bytes) :
     w.write d = ({ w with got := w.got ++ d }, d.length, none) := by
   unfold Wr.write; rw [h]
 
-/-- `io.CopyBuffer` from a scripted source into a writer that never fails copies the whole rest
-of the source and reports the source's error (nil for EOF). -/
+/-- the generic read/write loop from a scripted source into a writer that never fails copies the
+whole rest of the source and reports the source's error (nil for EOF) -/
 theorem copyLoop_good (m : Nat) (hm : 0 < m) : ∀ (fuel : Nat) (s : Src) (w : Wr),
     s.closes = 0 → w.cap = none → s.size < fuel →
     (copyLoop m fuel s w).2.1 = { w with got := w.got ++ s.rest } ∧
@@ -640,12 +732,29 @@ theorem copyLoop_good (m : Nat) (hm : 0 < m) : ∀ (fuel : Nat) (s : Src) (w : W
         have : s.rest = [] := by rw [← hd, hdn]
         cases e <;> simp [errOfTerm, ← hterm, this]
 
+/-- `io.CopyBuffer` into a writer that never fails — through the source's `WriteTo`, the
+writer's `ReadFrom`, or the generic loop alike — copies the whole rest of the source and reports
+the source's error (nil for EOF). -/
+theorem copyBuffer_good (s : Src) (w : Wr) (hc : s.closes = 0) (hw : w.cap = none) :
+    (copyBuffer s w).2.1 = { w with got := w.got ++ s.rest } ∧
+      (copyBuffer s w).2.2 = errOfTerm s.term := by
+  unfold copyBuffer
+  split
+  · unfold Src.writeTo
+    simp only [hc, Nat.lt_irrefl, ↓reduceIte]
+    split
+    · rename_i hr; simp [hr]
+    · rw [Wr.write_good hw]; simp
+  · split
+    · rename_i h; exact copyLoop_good _ h _ s w hc hw (by omega)
+    · exact copyLoop_good _ (by decide) _ s w hc hw (by omega)
+
 theorem Multi.writeLoop_inv : ∀ (rs dn : List Src) (w : Wr),
-    (∀ s ∈ rs, s.closes = 0) → (∀ s ∈ dn, s.closedOnce) →
+    (∀ s ∈ rs, s.closes = 0) → (∀ s ∈ dn, s.doneOk) →
     (∀ s ∈ (Multi.writeLoop .fixed rs dn w).1.readers, s.closes = 0) ∧
-    (∀ s ∈ (Multi.writeLoop .fixed rs dn w).1.done, s.closedOnce) ∧
-    ((Multi.writeLoop .fixed rs dn w).1.done ++ (Multi.writeLoop .fixed rs dn w).1.readers).map (·.closable)
-      = (dn ++ rs).map (·.closable) := by
+    (∀ s ∈ (Multi.writeLoop .fixed rs dn w).1.done, s.doneOk) ∧
+    ((Multi.writeLoop .fixed rs dn w).1.done ++ (Multi.writeLoop .fixed rs dn w).1.readers).map Src.ident
+      = (dn ++ rs).map Src.ident := by
   intro rs
   induction rs with
   | nil => intro dn w _ hdn; simp [Multi.writeLoop]; exact hdn
@@ -654,52 +763,46 @@ theorem Multi.writeLoop_inv : ∀ (rs dn : List Src) (w : Wr),
     have hr0 : r.closes = 0 := hrs r (by simp)
     have hrs' : ∀ s ∈ rs, s.closes = 0 := fun s hs => hrs s (by simp [hs])
     rw [Multi.writeLoop]
-    have hmeta := copyLoop_meta copyBufSize (r.size + 1) r w hr0
+    have hmeta := copyBuffer_meta r w hr0
     rcases hcp : copyBuffer r w with ⟨r', w', e⟩
-    have hcp' : (copyLoop copyBufSize (r.size + 1) r w).1 = r' := by
-      have : copyBuffer r w = copyLoop copyBufSize (r.size + 1) r w := rfl
-      rw [← this, hcp]
-    rw [hcp'] at hmeta
-    obtain ⟨_, _, hclosable, hcls⟩ := hmeta
+    rw [hcp] at hmeta
+    simp only at hmeta
     cases e with
     | some e =>
       simp only
-      refine ⟨?_, hdn, by simp [hclosable]⟩
+      refine ⟨?_, hdn, by simp [hmeta.ident]⟩
       intro s hs
       simp only [List.mem_cons] at hs
       rcases hs with rfl | hs
-      · rw [hcls, hr0]
+      · rw [hmeta.2.2.2, hr0]
       · exact hrs' s hs
     | none =>
       simp only
-      have hdn' : ∀ s ∈ dn ++ [r'.closeIfCloser], s.closedOnce := by
+      have hdn' : ∀ s ∈ dn ++ [r'.closeIfCloser], s.doneOk := by
         intro s hs
         rcases List.mem_append.mp hs with hs | hs
         · exact hdn s hs
         · simp only [List.mem_singleton] at hs
           subst hs
-          exact Src.closeIfCloser_closedOnce (by rw [hcls, hr0])
+          exact Or.inl (Src.closeIfCloser_closedOnce (by rw [hmeta.2.2.2, hr0]))
       obtain ⟨i1, i2, i3⟩ := ih (dn ++ [r'.closeIfCloser]) w' hrs' hdn'
-      exact ⟨i1, i2, by rw [i3]; simp [hclosable]⟩
+      exact ⟨i1, i2, by rw [i3]; simp [hmeta.ident]⟩
 
 theorem Multi.writeLoop_good : ∀ (rs dn : List Src) (w : Wr),
     (∀ s ∈ rs, s.closes = 0) → w.cap = none →
-    (Multi.writeLoop .fixed rs dn w).2.1 = { w with got := w.got ++ (multiSpec rs).1 } ∧
-    (Multi.writeLoop .fixed rs dn w).2.2 = errOfTerm (multiSpec rs).2 := by
+    (Multi.writeLoop .fixed rs dn w).2.1 = { w with got := w.got ++ (multiSpecWT rs).1 } ∧
+    (Multi.writeLoop .fixed rs dn w).2.2 = errOfTerm (multiSpecWT rs).2 := by
   intro rs
   induction rs with
-  | nil => intro dn w _ _; simp [Multi.writeLoop, multiSpec, errOfTerm]
+  | nil => intro dn w _ _; simp [Multi.writeLoop, multiSpecWT, errOfTerm]
   | cons r rs ih =>
     intro dn w hrs hw
     have hr0 : r.closes = 0 := hrs r (by simp)
     have hrs' : ∀ s ∈ rs, s.closes = 0 := fun s hs => hrs s (by simp [hs])
     rw [Multi.writeLoop]
-    have hgood := copyLoop_good copyBufSize (by decide) (r.size + 1) r w hr0 hw (by omega)
+    have hgood := copyBuffer_good r w hr0 hw
     rcases hcp : copyBuffer r w with ⟨r', w', e⟩
-    have hcp' : copyLoop copyBufSize (r.size + 1) r w = (r', w', e) := by
-      have : copyBuffer r w = copyLoop copyBufSize (r.size + 1) r w := rfl
-      rw [← this, hcp]
-    rw [hcp'] at hgood
+    rw [hcp] at hgood
     simp only at hgood
     obtain ⟨hw', he⟩ := hgood
     by_cases ht : r.term = .eof
@@ -709,13 +812,13 @@ theorem Multi.writeLoop_good : ∀ (rs dn : List Src) (w : Wr),
       have hwc : w'.cap = none := by rw [hw']; exact hw
       obtain ⟨i1, i2⟩ := ih (dn ++ [r'.closeIfCloser]) w' hrs' hwc
       rw [i1, i2, hw']
-      simp [multiSpec, ht]
+      simp [multiSpecWT, ht]
     · simp only [errOfTerm, ht, ↓reduceIte] at he
       subst he
-      simp [multiSpec, ht, errOfTerm, hw']
+      simp [multiSpecWT, ht, errOfTerm, hw']
 
 /-- The close-count invariant survives any sequence of `Read`s and `WriteTo`s. -/
-theorem Multi.run_inv {G : List Bool} : ∀ (ops : List MultiOp) (M : Multi), Multi.Inv G M →
+theorem Multi.run_inv {G : List (Bool × Err)} : ∀ (ops : List MultiOp) (M : Multi), Multi.Inv G M →
     Multi.Inv G (Multi.run .fixed M ops) := by
   intro ops
   induction ops with
@@ -937,5 +1040,274 @@ theorem Tee.consume_spec (s : Src) (w : Wr) (bufs : List Nat) (dflt : Nat)
   · exact ⟨rfl, rfl, rfl, hc, rfl, rfl⟩
   · exact hd
   · simp [Tee.fuel, Tee.new]
+
+
+/-! ### LimitReadCloser under any op sequence, any `int64` limit -/
+
+theorem Src.read_closes (s : Src) (m : Nat) : (s.read m).1.closes = s.closes ∧
+    (s.read m).2.1.length ≤ m := by
+  unfold Src.read
+  split
+  · simp
+  · split
+    · unfold Src.deliver
+      split
+      · simp
+      · split
+        · simp
+        · simp [List.length_take]; omega
+    · unfold Src.deliver
+      split
+      · simp
+      · split
+        · simp
+        · simp [List.length_take]; omega
+
+/-- the source has been closed exactly once iff the limit reader considers it closed -/
+def Limit.CInv (l : Limit) : Prop := l.src.closes = if l.closed then 1 else 0
+
+theorem clip_fixed_some (n : Int) (m : Nat) : ∃ m', clip .fixed n m = some m' ∧
+    (0 ≤ n → m' ≤ n.toNat + 1) ∧ m' ≤ max m (n + 1).toNat := by
+  unfold clip
+  simp only
+  split
+  · exact ⟨_, rfl, fun _ => by omega, by omega⟩
+  · exact ⟨_, rfl, fun _ => by omega, by omega⟩
+
+theorem Limit.read_cinv (l : Limit) (m : Nat) (h : l.CInv) :
+    (Limit.read .fixed l m).1.CInv ∧ (l.closed = true → (Limit.read .fixed l m).1.closed = true) := by
+  unfold Limit.read
+  split
+  · exact ⟨h, id⟩
+  split
+  · exact ⟨h, id⟩
+  split
+  · exact ⟨h, id⟩
+  rename_i hcl
+  obtain ⟨m', hm', _, _⟩ := clip_fixed_some l.n m
+  rw [hm']
+  simp only
+  have hc0 : l.src.closes = 0 := by simpa [Limit.CInv, hcl] using h
+  have hrc := (Src.read_closes l.src m').1
+  rcases hr : l.src.read m' with ⟨s', d, e⟩
+  rw [hr] at hrc
+  simp only at hrc ⊢
+  split
+  · exact ⟨by simp [Limit.CInv, Src.close, hrc, hc0], fun _ => rfl⟩
+  · exact ⟨by simp [Limit.CInv, hcl, hrc, hc0], fun h => absurd h (by simp [hcl])⟩
+
+theorem Limit.close_cinv (l : Limit) (h : l.CInv) : l.close.CInv ∧ l.close.closed = true := by
+  unfold Limit.close
+  split
+  · rename_i hc; exact ⟨h, hc⟩
+  · rename_i hc
+    have : l.src.closes = 0 := by simpa [Limit.CInv, hc] using h
+    exact ⟨by simp [Limit.CInv, Src.close, this], rfl⟩
+
+theorem Limit.run_cinv : ∀ (ops : List LimitOp) (l : Limit), l.CInv →
+    (Limit.run .fixed l ops).CInv ∧ (l.closed = true → (Limit.run .fixed l ops).closed = true) ∧
+    (LimitOp.close ∈ ops → (Limit.run .fixed l ops).closed = true) := by
+  intro ops
+  induction ops with
+  | nil => intro l h; exact ⟨h, id, by simp⟩
+  | cons op ops ih =>
+    intro l h
+    cases op with
+    | read m =>
+      rw [Limit.run]
+      obtain ⟨h1, h2⟩ := Limit.read_cinv l m h
+      obtain ⟨i1, i2, i3⟩ := ih _ h1
+      exact ⟨i1, fun hc => i2 (h2 hc), fun hm => i3 (by simpa using hm)⟩
+    | close =>
+      rw [Limit.run]
+      obtain ⟨h1, h2⟩ := Limit.close_cinv l h
+      obtain ⟨i1, i2, _⟩ := ih _ h1
+      exact ⟨i1, fun _ => i2 h2, fun _ => i2 h2⟩
+
+/-- a negative limit: every `Read` fails with ErrStreamTooLarge and touches nothing -/
+theorem Limit.read_negative (v : Version) (l : Limit) (m : Nat) (hn : l.n < 0) :
+    Limit.read v l m = (l, [], some .tooLarge) := by
+  unfold Limit.read; simp [hn]
+
+/-- one `Read` keeps `l.N` inside `int64` and evaluates `l.N+1` only where it cannot overflow -/
+theorem Limit.read_int64 (l : Limit) (m : Nat) (h0 : minInt64 ≤ l.n) (h1 : l.n ≤ maxInt64) :
+    minInt64 ≤ (Limit.read .fixed l m).1.n ∧ (Limit.read .fixed l m).1.n ≤ maxInt64 ∧
+    (Limit.read .fixed l m).1.n ≤ max l.n (-1) ∧ (0 ≤ l.n → -1 ≤ (Limit.read .fixed l m).1.n) := by
+  unfold Limit.read
+  split
+  · simp only; refine ⟨h0, h1, by omega, fun h => by omega⟩
+  split
+  · simp only; exact ⟨h0, h1, by omega, fun h => by omega⟩
+  split
+  · simp only; exact ⟨h0, h1, by omega, fun h => by omega⟩
+  rename_i hn _ _
+  obtain ⟨m', hm', hle, _⟩ := clip_fixed_some l.n m
+  rw [hm']
+  simp only
+  have hlen := (Src.read_closes l.src m').2
+  rcases hr : l.src.read m' with ⟨s', d, e⟩
+  rw [hr] at hlen
+  simp only at hlen ⊢
+  have := hle (by omega)
+  unfold minInt64 at *
+  unfold maxInt64 at *
+  split <;> (simp only; omega)
+
+/-! ### TeeReadCloser from several goroutines -/
+
+/-- whatever a `Read` hands to its caller has been written to the writer, in every state -/
+theorem Tee.read_written (t : Tee) (m : Nat) :
+    (t.read m).1.w.got = t.w.got ++ (t.read m).2.1 := by
+  unfold Tee.read
+  split
+  · simp
+  split
+  · simp
+  rcases t.src.read m with ⟨s', d, e⟩
+  simp only
+  split
+  · rcases hw : t.w.write d with ⟨w', nw, ew⟩
+    cases ew with
+    | some ew => simp only; exact (Wr.write_fail hw).2.1
+    | none => simp only; exact (Wr.write_ok hw).1
+  · rename_i hd
+    have : d = [] := by simpa using hd
+    simp [this]
+
+theorem Wr.closeIfCloser_got (w : Wr) : w.closeIfCloser.got = w.got := by
+  unfold Wr.closeIfCloser; split <;> rfl
+
+theorem Tee.apply_written (t : Tee) (op : TeeOp) :
+    (t.apply op).1.w.got = t.w.got ++ (t.apply op).2.1 := by
+  cases op with
+  | read m => exact Tee.read_written t m
+  | close => simp only [Tee.apply, Tee.close, List.append_nil]; split <;> simp [Wr.closeIfCloser_got]
+  | stop => simp only [Tee.apply, Tee.stop, List.append_nil]; split <;> simp [Wr.closeIfCloser_got]
+
+/-- after Close or Stop a `Read` returns no data -/
+theorem Tee.read_after_close (t : Tee) (m : Nat) (h : t.rOpen = false ∨ t.wOpen = false) :
+    t.read m = (t, [], some .closedPipe) := by
+  unfold Tee.read; simp [h]
+
+/-- close bookkeeping: each of r and w has been closed exactly once iff it is detached (nil) and a
+closer, and not at all while attached -/
+def Tee.CInv (cl wcl : Bool) (t : Tee) : Prop :=
+  t.src.closable = cl ∧ t.w.closable = wcl ∧
+  t.src.closes = (if t.rOpen then 0 else if cl then 1 else 0) ∧
+  t.w.closes = (if t.wOpen then 0 else if wcl then 1 else 0)
+
+theorem Wr.write_meta (w : Wr) (d : Bytes) :
+    (w.write d).1.closable = w.closable ∧ (w.write d).1.closes = w.closes := by
+  unfold Wr.write
+  split
+  · simp
+  · split <;> simp
+
+theorem Src.read_closable (s : Src) (m : Nat) : (s.read m).1.closable = s.closable := by
+  unfold Src.read
+  split
+  · rfl
+  · split
+    · unfold Src.deliver
+      split
+      · rfl
+      · split <;> rfl
+    · unfold Src.deliver
+      split
+      · rfl
+      · split <;> rfl
+
+theorem Tee.read_cinv {cl wcl : Bool} (t : Tee) (m : Nat) (h : t.CInv cl wcl) :
+    (t.read m).1.CInv cl wcl ∧ (t.read m).1.rOpen = t.rOpen ∧ (t.read m).1.wOpen = t.wOpen := by
+  unfold Tee.read
+  split
+  · exact ⟨h, rfl, rfl⟩
+  split
+  · exact ⟨h, rfl, rfl⟩
+  have h1 := (Src.read_closes t.src m).1
+  have h2 := Src.read_closable t.src m
+  rcases hrd : t.src.read m with ⟨s', d, e⟩
+  rw [hrd] at h1 h2
+  simp only at h1 h2 ⊢
+  obtain ⟨a, b, c, dd⟩ := h
+  split
+  · have hwm := Wr.write_meta t.w d
+    rcases hwr : t.w.write d with ⟨w', nw, ew⟩
+    rw [hwr] at hwm
+    obtain ⟨hw1, hw2⟩ := hwm
+    simp only at hw1 hw2
+    cases ew <;> exact ⟨⟨by simp [h2, a], by simp [hw1, b], by simp [h1, c], by simp [hw2, dd]⟩, rfl, rfl⟩
+  · exact ⟨⟨by simp [h2, a], b, by simp [h1, c], dd⟩, rfl, rfl⟩
+
+theorem Tee.apply_cinv {cl wcl : Bool} (t : Tee) (op : TeeOp) (h : t.CInv cl wcl) :
+    (t.apply op).1.CInv cl wcl := by
+  cases op with
+  | read m => exact (Tee.read_cinv t m h).1
+  | close =>
+    obtain ⟨a, b, c, d⟩ := h
+    simp only [Tee.apply, Tee.close, Tee.CInv]
+    refine ⟨?_, ?_, ?_, ?_⟩
+    · split <;> simp [a]
+    · split <;> simp [Wr.closeIfCloser, b] <;> split <;> simp [b]
+    · cases hr : t.rOpen <;> simp [hr] at c ⊢
+      · exact c
+      · simp [Src.closeIfCloser, Src.close, a]; cases cl <;> simp [c]
+    · cases hw : t.wOpen <;> simp [hw] at d ⊢
+      · exact d
+      · simp [Wr.closeIfCloser, b]; cases wcl <;> simp [d]
+  | stop =>
+    obtain ⟨a, b, c, d⟩ := h
+    simp only [Tee.apply, Tee.stop, Tee.CInv]
+    refine ⟨a, ?_, c, ?_⟩
+    · split <;> simp [Wr.closeIfCloser, b] <;> split <;> simp [b]
+    · cases hw : t.wOpen <;> simp [hw] at d ⊢
+      · exact d
+      · simp [Wr.closeIfCloser, b]; cases wcl <;> simp [d]
+
+/-- invariant of the concurrent system -/
+def TeeConc.Inv (t0 : Tee) (cl wcl : Bool) (c : TeeConc) : Prop :=
+  c.tee.CInv cl wcl ∧ (c.holder = none ↔ c.result = none) ∧
+  c.tee.w.got = t0.w.got ++ c.returnedData ++ c.pendingData
+
+theorem TeeConc.inv_of_reach {t0 : Tee} {cl wcl : Bool} (h0 : t0.CInv cl wcl) :
+    ∀ c, TeeConc.Reach t0 c → TeeConc.Inv t0 cl wcl c := by
+  intro c hr
+  induction hr with
+  | init => exact ⟨h0, by simp [TeeConc.init], by simp [TeeConc.init, TeeConc.returnedData, TeeConc.pendingData]⟩
+  | @step c c' l _ hstep ih =>
+    obtain ⟨i1, i2, i3⟩ := ih
+    cases l with
+    | call g op =>
+      simp only [TeeConc.step, Option.some.injEq] at hstep
+      subst hstep
+      exact ⟨i1, i2, i3⟩
+    | enter g op =>
+      simp only [TeeConc.step] at hstep
+      split at hstep
+      · rename_i hcond
+        have hres : c.result = none := i2.mp hcond.1
+        have hw := Tee.apply_written c.tee op
+        have hci := Tee.apply_cinv c.tee op i1
+        rcases hap : c.tee.apply op with ⟨t', d, e⟩
+        rw [hap] at hstep hw hci
+        simp only [Option.some.injEq] at hstep
+        subst hstep
+        refine ⟨hci, by simp, ?_⟩
+        simp only [TeeConc.pendingData, TeeConc.returnedData] at i3 ⊢
+        simp only at hw
+        rw [hw, i3, hres]; simp
+      · cases hstep
+    | leave g op =>
+      simp only [TeeConc.step] at hstep
+      split at hstep
+      · rename_i h d e hh hres
+        split at hstep
+        · simp only [Option.some.injEq] at hstep
+          subst hstep
+          refine ⟨i1, by simp, ?_⟩
+          simp only [TeeConc.pendingData, TeeConc.returnedData, hres] at i3 ⊢
+          rw [i3]; simp
+        · cases hstep
+      · cases hstep
 
 end Kit.Streams
